@@ -185,7 +185,7 @@ func (w *Walker) EventsOf(fr *Frame) []*Event {
 				ev.Args = append(ev.Args, w.ts.Of(a, fr))
 			}
 			if strings.HasPrefix(kind, "store.") {
-				ev.Prefix = w.cx.storeKeyPrefix(ci, kind)
+				ev.Prefix = w.cx.storeKeyPrefixOnChain(ci, kind, fr)
 			}
 			ev.InLoop = inLoop(b)
 			out = append(out, ev)
@@ -804,6 +804,28 @@ func withEquivalents(fs []FactT) []FactT {
 				add(head[:j+1]+fl+"("+args[1]+", "+args[0]+")", holds, f.Where)
 				add(head[:j+1]+methNeg[fl]+"("+args[1]+", "+args[0]+")", !holds, f.Where)
 			}
+			// symmetric equality tests
+			if m == "Equal" || m == "Equals" || m == "IsEqual" {
+				add(head+"("+args[1]+", "+args[0]+")", holds, f.Where)
+			}
+			// a >= 0 ≡ ¬IsNegative(a); a <= 0 ≡ ¬IsPositive(a) (and mirrored)
+			isZ := func(s string) bool {
+				return s == "math.ZeroInt()" || s == "math.LegacyZeroDec()" || s == "math.ZeroUint()"
+			}
+			switch {
+			case m == "GTE" && isZ(args[1]), m == "LTE" && isZ(args[0]):
+				a := args[0]
+				if m == "LTE" {
+					a = args[1]
+				}
+				add(head[:j+1]+"IsNegative("+a+")", !holds, f.Where)
+			case m == "LTE" && isZ(args[1]), m == "GTE" && isZ(args[0]):
+				a := args[0]
+				if m == "GTE" {
+					a = args[1]
+				}
+				add(head[:j+1]+"IsPositive("+a+")", !holds, f.Where)
+			}
 		}
 	}
 	return out
@@ -813,14 +835,20 @@ func (w *Walker) blockFacts0(fr *Frame, b *ssa.BasicBlock, depth int) []FactT {
 	var out []FactT
 	for _, fct := range dominatingFacts(b) {
 		out = append(out, FactT{Text: w.ts.Of(fct.Cond, fr).LooseString(), Holds: fct.Holds, Where: fct.If.Pos()})
+		// a condition computed into a variable first (`queued := a || b; if !queued`):
+		// the operands of the short-circuit are decided as well
+		if _, isPhi := fct.Cond.(*ssa.Phi); isPhi && depth < 4 {
+			for _, ft := range w.boolValueFacts(fr, fct.Cond, fct.Holds, 0) {
+				if ft.Where == token.NoPos {
+					ft.Where = fct.If.Pos()
+				}
+				out = append(out, ft)
+			}
+		}
 	}
 	for _, cf := range callFacts(b) {
-		name := callName(cf.Call)
-		var as []string
-		for _, a := range w.ts.callArgs(cf.Call, fr, 0, nil) {
-			as = append(as, a.LooseString())
-		}
-		out = append(out, FactT{Text: fmt.Sprintf("%s(%s) : %s", name, strings.Join(as, ", "), cf.Outcome), Holds: true, Where: cf.Call.Pos()})
+		ct := canon(&Term{Op: "call", Name: callName(cf.Call), Args: w.ts.callArgs(cf.Call, fr, 0, nil)})
+		out = append(out, FactT{Text: fmt.Sprintf("%s : %s", ct.LooseString(), cf.Outcome), Holds: true, Where: cf.Call.Pos()})
 		// implied facts of guard functions
 		if depth < 4 {
 			out = append(out, w.impliedFacts(fr, cf, depth)...)
